@@ -143,7 +143,27 @@ def reattach(sim, integ, o):
             sim.ri_trace.S_peri = o["S_peri"]
 
 
+def collision_system():
+    """ballistic spheres on collision courses: pair A touches at t~0.35, pair B at t~0.85, a bystander; radii 0.1 (one 0.03)"""
+    #        m    x     y     z    vx    vy   vz    r
+    return [[1.0, 0.0, 0.0, 0.0, 0.5, 0.0, 0.0, 0.1],
+            [0.5, 0.55, 0.01, 0.0, -0.5, 0.0, 0.0, 0.1],
+            [2.0, 0.0, 3.0, 0.02, 0.0, 0.6, 0.0, 0.1],
+            [0.7, 0.01, 4.05, 0.0, 0.0, -0.4, 0.0, 0.03],
+            [0.3, -4.0, -4.0, 1.0, 0.01, 0.02, 0.0, 0.1]]
+
+
 def make_sim(rebound, cfg, pre=None):
+    if cfg.get("sys") == "SCOL":
+        sim = rebound.Simulation()
+        if pre is not None:
+            pre(sim)
+        for b in collision_system():
+            sim.add(m=b[0], x=b[1], y=b[2], z=b[3], vx=b[4], vy=b[5], vz=b[6], r=b[7])
+        sim.integrator = cfg["integ"]
+        sim.gravity = "none"
+        sim.dt = 0.1 * cfg.get("dtsign", 1)
+        return sim, 1.0
     G, bodies, P = system(cfg.get("sys", "S3"))
     sim = rebound.Simulation()
     sim.G = G
